@@ -1,6 +1,7 @@
 //! Correspondence harness of property C13 (pairing: bilinearity, non-degeneracy, entry points).
 use mzkh::Ctx;
 
+mod direct;
 mod pair;
 mod tower;
 
@@ -9,5 +10,6 @@ fn main() {
     tower::run(&mut ctx);
     pair::run_engine::<pair::Bls>(&mut ctx);
     pair::run_engine::<pair::Bn>(&mut ctx);
+    direct::run(&mut ctx);
     ctx.finish();
 }
